@@ -1,7 +1,7 @@
 /-
   C04 — ITS releases inbound tokens only for approved trusted messages, at most once.
 -/
-import Axelar.Proofs.ItsMonad
+import Axelar.Proofs.GwHistory
 namespace Axelar.Props.C04
 open Axelar Axelar.ItsW Axelar.Its Codec
 
@@ -96,6 +96,60 @@ theorem unknown_message_type_fails (C : Crypto) (cx : ICtx) (sc mid sa payload :
       · simp [ht]
     · simp
   · simp [he]
+
+
+/-! ### At most once, over every schedule -/
+
+/-- **A release happens with the approval present before and the message executed after**, in
+    one transaction: the no-data transfer step succeeds only if the gateway held the approval
+    for exactly these fields addressed to the service, and when it has succeeded the gateway
+    entry is `Executed` at the end of the step (the token manager call cannot undo that). -/
+theorem release_consumes_the_approval (C : Crypto) (cx : ICtx) (oc sc mid sa ph payload : Bytes) (t t' : Tx)
+    (p : Abi.Transfer) (hd : Abi.Transfer.decode payload = .ok p) (hdata : p.data = [])
+    (hk : t.w.kind t.w.its.gateway = some .gateway)
+    (h : processInterchainTransfer C cx oc sc mid sa ph payload t = some ((), t')) :
+    t.w.gw.messages (sc, mid) = .approved (Gateway.messageHash C sc mid sa cx.self ph) ∧
+    t'.w.gw.messages (sc, mid) = .executed := by
+  obtain ⟨p', hd', _, hrel⟩ := release_requires_validation C cx oc sc mid sa ph payload t t' h
+  rw [hd] at hd'
+  cases hd'
+  obtain ⟨t0, t1, r, hw, hv, hg⟩ := hrel hdata
+  have hk0 : t0.w.kind t0.w.its.gateway = some .gateway := by rw [hw]; exact hk
+  obtain ⟨ha, he⟩ := gatewayValidate_true C cx sc mid sa ph t0 t1 hk0 hv
+  rw [hw] at ha
+  refine ⟨ha, ?_⟩
+  exact ((gwl_tmGiveToken C cx p.tokenId p.destinationAddress p.amount).h t1 r t' hg (sc, mid)).1 he
+
+/-- **No release for a message that is already executed**: the no-data transfer step fails. -/
+theorem executed_message_releases_nothing (C : Crypto) (cx : ICtx) (oc sc mid sa ph payload : Bytes) (t : Tx)
+    (p : Abi.Transfer) (hd : Abi.Transfer.decode payload = .ok p) (hdata : p.data = [])
+    (hk : t.w.kind t.w.its.gateway = some .gateway)
+    (hex : t.w.gw.messages (sc, mid) = .executed) :
+    processInterchainTransfer C cx oc sc mid sa ph payload t = none := by
+  cases hr : processInterchainTransfer C cx oc sc mid sa ph payload t with
+  | none => rfl
+  | some x =>
+    obtain ⟨u, t'⟩ := x
+    have := (release_consumes_the_approval C cx oc sc mid sa ph payload t t' p hd hdata hk hr).1
+    rw [hex] at this
+    cases this
+
+/-- **Executed is forever**: no sequence of transactions, deliveries, callbacks and environment
+    moves — by any callers, to any contracts, in any order — brings an executed message back. -/
+theorem executed_message_stays_executed (C : Crypto) (w : World) (ops : List World.Op) (k : Bytes × Bytes)
+    (h : w.gw.messages k = .executed) : (World.run C w ops).gw.messages k = .executed :=
+  (World.run_life C ops w k).1 h
+
+/-- **So the total ever released for one message never exceeds its amount**: after a release
+    (which leaves the message executed), in every later state of every history a further
+    no-data transfer step for the same message fails. -/
+theorem no_second_release (C : Crypto) (w : World) (ops : List World.Op) (cx : ICtx)
+    (oc sc mid sa ph payload : Bytes) (p : Abi.Transfer) (hd : Abi.Transfer.decode payload = .ok p)
+    (hdata : p.data = []) (hex : w.gw.messages (sc, mid) = .executed) (t : Tx)
+    (ht : t.w.gw = (World.run C w ops).gw) (hk : t.w.kind t.w.its.gateway = some .gateway) :
+    processInterchainTransfer C cx oc sc mid sa ph payload t = none :=
+  executed_message_releases_nothing C cx oc sc mid sa ph payload t p hd hdata hk
+    (by rw [ht]; exact executed_message_stays_executed C w ops (sc, mid) hex)
 
 /-- message type ids extracted from the source -/
 theorem message_types : Generated.MESSAGE_TYPE_INTERCHAIN_TRANSFER = 0 ∧
